@@ -10,7 +10,7 @@ from ..core.fde import IndexOutOfRange, Obj, Raised, Undecided
 from ..core.findings import Report
 from ..core.loader import Repo
 from .c04 import adjacency, check_grid, ref_vertices_connected
-from .encodings import GRAPHS, Canon, Instance, RefArray, compare, projection
+from .encodings import work_now, GRAPHS, Canon, Instance, RefArray, compare, projection
 from .graphnative import GRAPH
 
 SHAPES = [(1, 1), (1, 3), (3, 1), (2, 2), (2, 3), (3, 2), (3, 3)]
@@ -275,9 +275,9 @@ def run(repo: Repo, rep: Report) -> None:
 
 def _triage(rep: Report, label: str, devs: List[Any]) -> None:
     undecided = None
-    t0 = time.time()
+    t0 = work_now()
     for gname, n, edges, inst, diff in sorted(devs, key=lambda d: (d[1], len(d[2]))):
-        if time.time() - t0 > 40:
+        if work_now() - t0 > 40:
             break
         ids = [a for a in inst.arrays if a["user"]][0]["ids"]
         proj = projection(inst, ids, budget_s=6.0)
